@@ -37,7 +37,7 @@ def sig_index(name, obj):
             if kind == 'signal' and nm == name and o is obj]
 
 
-def build_world(c, real_chunk=False, **extra):
+def build_world(c, real_chunk=False, rx='all', **extra):
     ''' Two endpoints with symbolic segment sizes / MRUs, established. '''
     from vf.engine import smin
     s_a = c.sym_int('segA', 1, 2 ** 64 - 1, size=True)
@@ -49,6 +49,7 @@ def build_world(c, real_chunk=False, **extra):
     if not real_chunk:
         w.a.CHUNK_SIZE = w.b.CHUNK_SIZE = BIG
     w.seg = {'A': smin(s_a, mru_b), 'B': smin(s_b, mru_a)}
+    w.sock_a.recv_policy = w.sock_b.recv_policy = rx
     return w
 
 
